@@ -620,3 +620,20 @@ V("c11d-upper-keeps-json", A, "C11", "C11.d", ('transforms', 'expression.set("th
 V("c11d-cast-keeps-json", A, "C11", "C11.d", ("transforms", "        je.replace(exp.JSONExtractScalar(this=je.this, expression=path))\n", "        je.replace(exp.JSONExtract(this=je.this, expression=path))\n"))
 V("c11d-flatten-loses-alias", A, "C11", "C11.d", ('transforms', 'alias=exp.TableAlias(this=alias.this, columns=[exp.Identifier(this="VALUE", quoted=False)]),', 'alias=exp.TableAlias(this=exp.Identifier(this="F", quoted=False), columns=[exp.Identifier(this="VALUE", quoted=False)]),'))
 V("c11d-try-parse-json-cast", A, "C11", "C11.d", ("transforms", "        return exp.TryCast(\n            this=expressions[0],\n            to=exp.DataType(this=exp.DataType.Type.JSON, nested=False),", "        return exp.Cast(\n            this=expressions[0],\n            to=exp.DataType(this=exp.DataType.Type.JSON, nested=False),"))
+
+# ---------------------------------------------------------------- later findings (F39-F43) re-armed
+V("c06-status-recorded-with-user-params", A, ["C06", "C04"], "C06.g", ("cursor", "self._last_params = None if result_sql else params", "self._last_params = params"))
+V("c06-describe-dict-rows", A, "C06", "C06.h",
+  ("cursor", """        if self._use_dict_result:
+            # the columns of a DESCRIBE result have distinct names, so their order is the dict order
+            rows = [tuple(r.values()) for r in rows]  # pyright: ignore[reportAttributeAccessIssue]
+""", ""))
+V("c10-trim-drops-chars", A, ["C10", "C11"], None,
+  ("transforms", """    new_trim = expression.copy()
+    new_trim.set(
+        "this", exp.Cast(this=operand, to=exp.DataType(this=exp.DataType.Type.VARCHAR, nested=False, prefix=False))
+    )
+    return new_trim""", """    return exp.Trim(
+        this=exp.Cast(this=operand, to=exp.DataType(this=exp.DataType.Type.VARCHAR, nested=False, prefix=False))
+    )"""))
+V("c15-unset-undefined-keyerror", A, "C15", "C15.f", ("variables", "self._variables.pop(name, None)", "self._variables.pop(name)"))
